@@ -1,6 +1,7 @@
 package main
 
 import (
+	"slices"
 	"fmt"
 	"strings"
 	"time"
@@ -101,8 +102,10 @@ func c16Jobs(tier string) []*Job {
 				instants = append(instants, []int{t})
 			}
 			instants = append(instants, []int{max}, []int{min + 1, 2*min + 2})
+			// two transactions in a row (the second while the proposal triggered by the first is being agreed)
+			instants = append(instants, []int{min + 2_500, min + 2_500}, []int{3_000, 3_000})
 			if n == 7 || tier != "thorough" && ratio == 100 {
-				instants = instants[:3]
+				instants = append(instants[:3:3], []int{max}, []int{min + 2_500, min + 2_500})
 			}
 			for _, a := range []int64{-1, 0} {
 				if a == 0 && (n == 7 || ratio == 15 || ratio == 100) {
@@ -425,7 +428,16 @@ func c14Compare(sc *Scenario, path []Event) (key, msg string) {
 	if div != "" {
 		panic(harnessFault{"c14: base epoch diverged from itself: " + div})
 	}
-	for _, off := range c14Offsets {
+	offsets := c14Offsets
+	if sc.TSIncrement < 1_000_000 {
+		// a finer timestamp increment admits finer shifts (every offset is a multiple of the increment, otherwise the
+		// truncation of the clock reading to the increment does not commute with the shift)
+		offsets = append(slices.Clone(offsets), []struct {
+			name string
+			ns   int64
+		}{{"+257us", 257_000}, {"-1d-3us", -86400*1_000_000_000 - 3_000}, {"+1d+999us", 86400*1_000_000_000 + 999_000}}...)
+	}
+	for _, off := range offsets {
 		o, div := runObs(sc, c14Base+off.ns, idx, bp)
 		if div != "" {
 			return "C14/behaviour-differs-under-shifted-clock", fmt.Sprintf("epoch %s: the same schedule is not executable: %s", off.name, div)
@@ -547,6 +559,15 @@ func c14Jobs(tier string) []*Job {
 	jobs = append(jobs, mk("C14-N4-silent-primary", 4, withKind(primaryAt(5, 0, 4), kSilent)))
 	jobs = append(jobs, mk("C14-N4-silent-primary-of-height6", 4, withKind(primaryAt(6, 0, 4), kSilent)))
 	jobs = append(jobs, mk("C14-N2", 2))
+	// timestamp increments finer than a millisecond, epochs that differ by fractions of a millisecond
+	for _, inc := range []uint64{1, 1000} {
+		j := mk(fmt.Sprintf("C14-N4-increment-%dns", inc), 4)
+		j.Scenario.TSIncrement = inc
+		jobs = append(jobs, j)
+		j = mk(fmt.Sprintf("C14-N4-increment-%dns-silent-primary", inc), 4, withKind(primaryAt(5, 0, 4), kSilent))
+		j.Scenario.TSIncrement = inc
+		jobs = append(jobs, j)
+	}
 	// open environment: one real node, every reached state compared across epochs (view skips, recovery, re-requests)
 	for _, x := range []int{2, 0} {
 		sp := E2Spec{Views: 2, Proposals: "A", Responses: "A", RespPeers: 2, Commits: "A", CVs: 2, RecReq: true, Bundles: true, MaxDepth: 8, StateCap: 30_000}
